@@ -53,7 +53,9 @@ ntr = Contract(
 
 
 # success through the step-size criterion (MINPACK's xtol rule): the residual is then bounded by ||J|| * xtol for a full Gauss-Newton step --
-# numerical analysis over the linear algebra the executor does not model; that region is covered by the bounded native family only
+# numerical analysis over the linear algebra the executor does not model.  Inside that region the property is in fact violated when
+# the iterates run away (xtol is relative to ||x||): known finding F18c, witnessed by the bounded native family; the obligation is
+# restricted to the complement of the region so that any other false success is still a violation
 XTOL_REGION = {"hybrj": "result[1][1] <= xtol", "newtontrustregion": "dxn <= 0.8 * xtol"}
 
 
@@ -80,7 +82,7 @@ def check_solver(reg, src, c, link_var):
             ok = ok and v[1][3] is env.get("F0")
         reg.ground("%s/%s/returned-residual-is-f-at-the-returned-point[%s]" % (PID, name, tr), "post", name, bool(ok), backend="symbolic-exec",
                    detail="result[0] is x and %s is f(x) (identity of unmodelled values along the path)" % link_var)
-    ex.verify(c, post_hook=post_hook, regions={("post", 0): ("A-xtol (step-size termination rule; bounded native only)", XTOL_REGION[name])})
+    ex.verify(c, post_hook=post_hook, regions={("post", 0): ("F18c / A-xtol (step-size termination rule: known finding F18c inside it, bounded native only)", XTOL_REGION[name])})
     return src.func(F, name)
 
 
@@ -148,7 +150,7 @@ def run(tier):
     R.assume("arrays are opaque values: norms and scalar reductions are uninterpreted reals (one per array object), comparisons of unmodelled values are nondeterministic; the linear algebra (solve, matmul, Broyden update, "
              "inverse) is havocked -- an over-approximation of every numerical behaviour, so what is proved is the success-flag dataflow, not convergence")
     R.assume("A-xtol: success through the step-size termination rule (|dx| <= xtol, MINPACK's rule) bounds the residual by ||J|| * xtol for a full Gauss-Newton step: numerical analysis, outside these contracts; the "
-             "obligation 'success => small residual' is restricted to the complement of that region and the region is exercised by the bounded native family only")
+             "obligation 'success => small residual' is restricted to the complement of that region; inside it the bounded native family witnesses a genuine violation (known finding F18c: runaway iterates)")
     R.assume("scipy.optimize.root (MINPACK hybr) is external: its success flag and residual are taken as returned (dataflow only)")
     R.assume("scalar (0-d) initial guesses are forwarded to the vector code by a wrapper that is not under contract; result shapes are a bounded native clause")
     R.trust("z3", "pyvc executor (symbolic for-loop cut, identity links over unmodelled values)")
